@@ -396,6 +396,18 @@ def _loop_as_comp(loop, X, kind):
   return elt, gens
 
 
+def _comp_bound_loads(fnode):
+  """ids of the Name loads that are bound by a comprehension enclosing them."""
+  out = set()
+  for c in ast.walk(fnode):
+    if isinstance(c, (ast.ListComp, ast.SetComp, ast.GeneratorExp, ast.DictComp)):
+      bound = {x.id for g in c.generators for x in ast.walk(g.target) if isinstance(x, ast.Name)}
+      for x in ast.walk(c):
+        if isinstance(x, ast.Name) and isinstance(x.ctx, ast.Load) and x.id in bound:
+          out.add(id(x))
+  return out
+
+
 def loops_to_comps(fnode):
   changed = False
   for _ in range(30):
@@ -424,11 +436,12 @@ def loops_to_comps(fnode):
         # loop variables must not be read after the loop (a comprehension does not leak them)
         tnames = {x.id for g in gens for x in ast.walk(g.target) if isinstance(x, ast.Name)}
         leak = False
+        comp_bound = _comp_bound_loads(fnode)
         for nm in tnames:
-          if cen.stores.get(nm, 0) != 1 or nm in cen.params:
+          if nm in cen.params or nm in cen.declared or nm in cen.nested:
             leak = True
           for u in cen.loads.get(nm, []):
-            if not any(x is u for x in ast.walk(loop)):
+            if not any(x is u for x in ast.walk(loop)) and id(u) not in comp_bound:
               leak = True
         if leak:
           continue
@@ -755,6 +768,28 @@ def returns_to_assignments(stmts, make_result):
   return out + make_result(ast.Constant(value=None))
 
 
+def _calls_before(roots, target):
+  """Call nodes whose evaluation completes before `target` starts, the roots being evaluated in
+  order (children in field order: func, args, keywords / left, right / value, slice ...)."""
+  done = []
+  class Found(Exception):
+    pass
+  def go(e):
+    if e is target:
+      raise Found()
+    for ch in ast.iter_child_nodes(e):
+      if isinstance(ch, (ast.expr, ast.keyword, ast.comprehension)):
+        go(ch)
+    if isinstance(e, ast.Call):
+      done.append(e)
+  try:
+    for r in roots:
+      go(r)
+  except Found:
+    return done
+  return done
+
+
 class Inliner(object):
   def __init__(self, repo, keep):
     self.repo = repo
@@ -977,6 +1012,63 @@ class Inliner(object):
               break
             if hit:
               break
+          if hit:
+            break
+          # (c) a statement-bodied helper called inside a larger expression of a simple
+          # statement: its body is hoisted in front of the statement, the call replaced by the
+          # local that receives the result -- only when nothing else is called before it in that
+          # statement (so the order of effects is kept)
+          if isinstance(s, (ast.Expr, ast.Assign, ast.AugAssign, ast.Return, ast.If, ast.For)):
+            for hx in header_exprs(s):
+              for c in [x for x in ast.walk(hx) if isinstance(x, ast.Call)]:
+                r = self.resolve(c, fi, cen)
+                if r is None or r[0].kind == "expr" or \
+                    r[0].fi.qualname in done_targets.get("blocked", ()) or \
+                    done_targets.setdefault("n", {}).get(r[0].fi.qualname, 0) >= 3:
+                  continue
+                if not _once_position(hx, c) or _calls_before(header_exprs(s), c):
+                  continue
+                h, is_m = r
+                inst = self._instantiate(h, is_m, c, names)
+                if inst is None:
+                  continue
+                self.counter += 1
+                res = "result__i%d" % self.counter
+                mk = lambda v, res=res: [ast.Assign(targets=[ast.Name(id=res, ctx=ast.Store())],
+                                                     value=v)]
+                conv = returns_to_assignments(inst[1], mk)
+                if conv is None:
+                  continue
+                new = list(inst[0]) + conv
+
+                class Rep2(ast.NodeTransformer):
+                  def visit_Call(self, node):
+                    if node is c:
+                      return ast.copy_location(ast.Name(id=res, ctx=ast.Load()), node)
+                    self.generic_visit(node)
+                    return node
+                # only the header is rewritten (bodies of compounds keep their statements)
+                if isinstance(s, ast.If):
+                  s.test = Rep2().visit(s.test)
+                  tail = s
+                elif isinstance(s, ast.For):
+                  s.iter = Rep2().visit(s.iter)
+                  tail = s
+                else:
+                  tail = Rep2().visit(s)
+                for x in new:
+                  if not hasattr(x, "lineno"):
+                    ast.copy_location(x, s)
+                  ast.fix_missing_locations(x)
+                block[i:i + 1] = new + [tail]
+                ast.fix_missing_locations(tail)
+                done_targets.setdefault("used", set()).add(h.fi.qualname)
+                done_targets["n"][h.fi.qualname] = done_targets["n"].get(h.fi.qualname, 0) + 1
+                count += 1
+                progress = hit = True
+                break
+              if hit:
+                break
           if hit:
             break
         if progress:
